@@ -18,7 +18,7 @@ def worker(kp, job):
     seed, idx, mode = job
     rng = random.Random(seed * 49979687 + idx)
     CATS = [c.name for c in kp.TokenCategory]
-    g = docs.gen_doc(rng, max_spines=3, measures=rng.randint(1, 2)) if mode != 'big' else docs.gen_doc(rng)
+    g = docs.gen_doc(rng, max_spines=3, measures=rng.randint(1, 2), twins=0.5) if mode != 'big' else docs.gen_doc(rng, twins=0.4)
     text = g.text
     bad = docs.bad_cells(kp, text)
     try:
